@@ -23,6 +23,9 @@ def nonce(bn, n):
     return bytes(a ^ b for a, b in zip(bn, s))
 
 
+# mock AEADs of harness/src/probe.rs: id -> (Nn, Nt).  RFC 9180 5.2: nonce = base_nonce XOR I2OSP(seq, Nn) for any Nn
+MOCK_NN = {0x7777: (12, 16), 0x7778: (24, 32), 0x7779: (8, 16)}
+
 BN_PATTERNS = ["000000000000000000000000", "ffffffffffffffffffffffff", "0000000000000000ffffffff",
                "ffffffff0000000000000001", "80000000000000007fffffff"]
 
@@ -51,7 +54,7 @@ def positions(env, nrand):
     return pos
 
 
-def build_positions(env, nrand):
+def build_positions(env, nrand, alloc=True):
     g = gen.G(env.rnd)
     cw = cl.CaseW()
     suites = [(kem, kdf, a) for a in gen.SEAL_AEADS for kem in gen.KEMS for kdf in gen.KDFS]
@@ -65,7 +68,7 @@ def build_positions(env, nrand):
         for p in chunk:
             s.call("set_seq", ctx="S", seq=p)
             for j in range(env.rnd.choice([2, 3])):
-                s.call("seal", ctx="S", api=env.rnd.choice(["alloc", "inplace"]),
+                s.call("seal", ctx="S", api=env.rnd.choice(["alloc", "inplace"]) if alloc else "inplace",
                        pt=g.rbytes(env.rnd.choice([0, 1, 16, 17, 40])), aad=g.rbytes(env.rnd.choice([0, 1, 13])))
     return cw
 
@@ -158,7 +161,7 @@ def monitor(sess, extra):
             m.refused = False
         elif op.op == "probe_ctl":
             pending_failures[0] = int(op.args.get("fail_seal", "0"))
-        elif op.op == "seal" and aead == 0x7777:
+        elif op.op == "seal" and aead in MOCK_NN:
             m = models[name]
             r.counts["evaluations"] += 1
             inplace = op.args["api"] == "inplace"
@@ -178,9 +181,10 @@ def monitor(sess, extra):
                 if not op.ok():
                     r.violation("C04:early_refusal:%s" % op.outcome(), "seal at sequence number %d failed with %s (mock AEAD, no failure requested)" % (m.n, op.outcome()), sess, op)
                     continue
-                tag = op.out("tag") if inplace else op.out("full")[-16:]
-                if m.bn is not None and tag[:12] != nonce(m.bn, m.n):
-                    seen = int.from_bytes(bytes(a ^ b for a, b in zip(tag[:12], m.bn)), "big")
+                nn, ntag = MOCK_NN[aead]
+                tag = op.out("tag") if inplace else op.out("full")[-ntag:]
+                if m.bn is not None and tag[:nn] != nonce(m.bn, m.n):
+                    seen = int.from_bytes(bytes(a ^ b for a, b in zip(tag[:nn], m.bn)), "big")
                     r.violation("C04:wrong_nonce", "the AEAD was called with the nonce of sequence number %d for the message that is number %d among the successfully sealed ones (an earlier failed seal must not consume a sequence number)" % (seen, m.n), sess, op)
                 else:
                     r.distinct.add((aead, m.n))
@@ -288,8 +292,10 @@ def build_probe(env, reps):
     cw = cl.CaseW()
     for r in range(reps):
         kem = gen.KEMS[r % 4]
-        s = cw.session(kem, [1, 3][r % 2], 0x7777, sid="q%d" % r)
-        key, bn = g.raw(32), (bytes.fromhex(BN_PATTERNS[r % len(BN_PATTERNS)]) if r % 2 else g.raw(12))
+        aead = (0x7777, 0x7778, 0x7779)[(r // 2) % 3]
+        nn = MOCK_NN[aead][0]
+        s = cw.session(kem, [1, 3][r % 2], aead, sid="q%d" % r)
+        key, bn = g.raw(32), ((bytes.fromhex(BN_PATTERNS[r % len(BN_PATTERNS)]) * 2)[:nn] if r % 2 else g.raw(nn))
         s.call("raw_s", key=key, bn=bn, es=g.raw({1: 32, 3: 64}[s.ids[1]]), out="S")
         for p in (0, 254, (1 << 32) - 2, M64 - 6):
             s.call("set_seq", ctx="S", seq=p)
@@ -298,6 +304,14 @@ def build_probe(env, reps):
                     s.call("probe_ctl", fail_seal=rnd.choice([1, 1, 2]))
                 s.call("seal", ctx="S", api=rnd.choice(["alloc", "inplace"]), pt=g.rbytes(rnd.choice([0, 1, 16, 33])), aad=g.rbytes(rnd.choice([0, 3])))
         s.call("probe_ctl", fail_seal=0)
+        # a seal that fails exactly at the last sequence number: the nonce of 2^64-1 has not been used, so the next
+        # seal must succeed with it, and only then is the context exhausted
+        for start, nfail in ((M64, 1), (M64, 2), (M64 - 1, 1)):
+            s.call("set_seq", ctx="S", seq=start)
+            s.call("probe_ctl", fail_seal=nfail)
+            for _ in range(nfail + 2 + (M64 - start) + 1):
+                s.call("seal", ctx="S", api=rnd.choice(["alloc", "inplace"]), pt="0a0b", aad="-")
+            s.call("probe_ctl", fail_seal=0)
         # also through the real key schedule and the single-shot form
         gen.add_pair(s, g, kem, rnd.choice(gen.MODES), sname="T", receiver=False)
         s.call("probe_ctl", fail_seal=1)
@@ -336,13 +350,22 @@ def run(env):
         env.extra_cov["driver_wall_s_%s" % name] = round(res.wall, 2)
     # other code generation settings (a build script or cfg can key on them): size-optimised and native-CPU builds every
     # time, the other opt-levels in the thorough tier
+    # Conjunctions of settings select code as well (cfg(all(panic = "abort", not(feature = "alloc")))): two mixed builds every
+    # time; in the thorough tier a covering set in which every pair of settings of
+    # {alloc, std, neither} x opt-level {0, 2, 3, s, z} x panic {unwind, abort} x target-cpu {baseline, native} x debug assertions
+    # occurs together in some build.
     matrix = {}
     mtext = build_positions(env, env.pick(30, 200)).text()
-    for b in env.pick(("opts", "native"), ("opt0", "opt1", "opts", "optz", "native")):
-        rb = env.drive("matrix", mtext, build=b)
-        env.require_complete(rb, "matrix/" + b)
+    mtext_inplace = build_positions(env, env.pick(30, 200), alloc=False).text()
+    blist = [fw.BUILDS[b] for b in env.pick(("opts", "native", "mix-noalloc-abort-s-native", "mix-std-abort-z"), ("opt0", "opt1", "opts", "optz", "native", "mix-noalloc-abort-s-native", "mix-std-abort-z"))]
+    if not env.quick():
+        blist += fw.pairwise_builds()
+    for b in blist:
+        noalloc = b.features is not None and "alloc" not in b.features and "std" not in b.features
+        rb = env.drive("matrix", mtext_inplace if noalloc else mtext, build=b if b.name not in fw.BUILDS else b.name)
+        env.require_complete(rb, "matrix/" + b.name)
         env.pmap(monitor, rb.sessions, workload="positions")
-        matrix[b] = sum(len(x.ops) for x in rb.sessions)
+        matrix[b.name] = sum(len(x.ops) for x in rb.sessions)
     env.extra_cov["build_configuration_matrix_ops"] = matrix
     if not env.quick():
         res = env.drive("volume", build_volume(env, 66000, 1 << 20).text(), timeout=7200)
